@@ -53,6 +53,18 @@ def run(ctx):
         "faults are injected as exceptions at call boundaries of the wrapped methods (not inside C extensions or the OS)",
     ]
     with core.Lock():
+        # T-tie: DatastoreTransaction.registerUndo / rollback / commit and the context manager Datastore.transaction are translated
+        # from the working tree into Gen/DsTxnPy.lean; C07.Translated.failed_block / committed_block / the two nesting theorems are
+        # proved about the translation
+        import sys as _sys
+
+        _sys.path.insert(0, os.path.join(core.VERIF, "translate"))
+        try:
+            import gen_dstxn
+
+            gen_dstxn.generate(core.GEN_DIR)
+        except Exception as e:
+            ctx.broken.append(f"translation: DatastoreTransaction / Datastore.transaction: {type(e).__name__}: {e}")
         built = core.lean_build(ctx, LEAN_TARGETS)
         if built:
             core.lean_audit(ctx, ["ButlerModel.Props.C07"])
